@@ -195,6 +195,7 @@ type Obj struct {
 	Dims    []uint64
 	Raw     []byte // row-major element bytes of the current extent; nil before the first full write
 	Written bool
+	Grown   bool // extended after the last full write: the added region has no stored chunks
 	VL      [][]byte // variable-length datasets: the bytes of every element (Raw is then nil)
 	Attrs   map[string]*MAttr
 	Links   map[string]*Link // groups
@@ -592,6 +593,7 @@ func (e *Exec) Apply(op Op) (st Step) {
 		if err == nil && !bad {
 			o.Raw = raw
 			o.Written = true
+			o.Grown = false
 		}
 	case "resize":
 		o := m.Resolve(op.Path)
@@ -624,6 +626,11 @@ func (e *Exec) Apply(op Op) (st Step) {
 			if o.VL != nil {
 				o.VL, o.Written = nil, false // element references of a resized vlen dataset are not modelled until rewritten
 			} else {
+				for i := range op.Dims {
+					if o.Written && op.Dims[i] > o.Dims[i] {
+						o.Grown = true
+					}
+				}
 				o.Raw = ResizeRaw(o.Raw, o.Dims, op.Dims, o.Spec.ElemSize(), o.Written)
 			}
 			o.Dims = append([]uint64{}, op.Dims...)
